@@ -332,6 +332,10 @@ def check(tier="quick", seed=0, workers=None, only=None):
     cst, cinfo = conc.run_for("C03", tier, seed, workers, only) if not only else (engine.Stats(bound=None), {})
     viols += common.collect(cst, ("C03",))
     total += cst.evaluations
+    from . import backends
+    bst, binfo = backends.run_for(tier, seed, workers, None, purpose="uploads") if not only else (engine.Stats(bound=2), {})
+    viols += common.collect(bst, ("C03",))
+    total += bst.evaluations
     samples = [{"method": c[0], "target": repr(TARGETS[c[1]]), "headers": [HEADER_ALPHABET[i][0] for i in c[2]], "body": c[3]}
                for c in allc[:: max(1, len(allc) // 5)][:5]]
     cov = {
@@ -340,7 +344,7 @@ def check(tier="quick", seed=0, workers=None, only=None):
                  "each on HTTP/1.1 and HTTP/2, sync and async, sent twice per pool (first use + reuse); a sub-product of the shapes again over the ten other "
                  "connection types (TLS, ALPN-negotiated, forward / tunnel / SOCKS proxies); distinct class = (illegal method?, target, header-name set, body form, protocol, violated?)"
                  % (2 if tier == "quick" else 3)),
-        "samples": samples, "request_shapes": len(allc), "resend_scenarios": cinfo,
+        "samples": samples, "request_shapes": len(allc), "resend_scenarios": cinfo, "sync_send_loop_under_short_writes": binfo,
         "other_connection_types": {"types": VIA_TYPES, "request_shapes": len(viac), "runs": via_runs,
                                    "note": "forward proxy configured with proxy headers that collide with the header alphabet"},
     }
